@@ -89,8 +89,9 @@ def extract(repo, failures):
     adv_sched = bool(re.search(r"do\{_next_rotation_time=_calculate_rotation_tp\(_next_rotation_time,_config\);\}"
                                r"while\(record_timestamp_ns>=_next_rotation_time\);", tr))
     adv_record = "_next_rotation_time=_calculate_rotation_tp(record_timestamp_ns,_config);" in tr
+    time_problems = []
     if adv_sched == adv_record:
-        failures.append("rot: _time_rotation: neither the scheduled-point loop nor the record-anchored advance recognised")
+        time_problems.append("rot: _time_rotation: neither the scheduled-point loop nor the record-anchored advance recognised")
     out["advancesFromSchedule"] = adv_sched
     facts["rotateThenAdvance"] = (tr.find("_rotate_files(record_timestamp_ns)") >= 0 and
                                   tr.find("_rotate_files(record_timestamp_ns)") < tr.find("_calculate_rotation_tp("))
@@ -149,11 +150,17 @@ def extract(repo, failures):
              ctor.find("_created_files.emplace_front(this->_filename,0,std::string{})"), ctor.find("_file_size=_get_file_size(this->_filename)")]
     facts["constructorOrder"] = all(x >= 0 for x in order) and order == sorted(order)
 
+    # a fact that no longer holds is not a failure of the extraction: it is extracted as `false` and the obligation breaks.
+    # Facts are split by the property whose model relies on them, so that an edit to the time trigger does not alarm C14
+    # and an edit to the size trigger does not alarm C15.
+    TIME = ("freqCharsMmHh", "intervalZeroThrows", "dailyTwoTokensOfTwoChars", "dailyBounds23_59", "timeCheckGuard",
+            "timeTriggerGe", "rotateThenAdvance", "timeRotationReturnsTrueWhenDue", "suffixFromOpenInstant", "periods",
+            "initialPoint", "timeThenSizeThenWrite", "openStampAndSizeReset")
+    SIZE_ALSO = ("timeThenSizeThenWrite", "openStampAndSizeReset")
     out["facts"] = facts
-    for k, v in facts.items():
-        if not v:
-            # not a failure of the extraction: the fact is extracted as `false` and the obligation breaks
-            pass
+    out["timeFacts"] = {k: v for k, v in facts.items() if k in TIME}
+    out["sizeFacts"] = {k: v for k, v in facts.items() if k not in TIME or k in SIZE_ALSO}
+    out["timeProblems"] = time_problems
 
     fr = {"Disabled": ".disabled", "Daily": ".daily", "Hourly": ".hourly", "Minutely": ".minutely"}
     sc = {"Index": ".index", "Date": ".date", "DateAndTime": ".dateTime"}
@@ -172,14 +179,18 @@ def extract(repo, failures):
     else:
         failures.append("rot: defaults not recognised: %r" % d)
         L.append("def rotDefaults : Rot.Cfg := { maxBackup := 0 }")
-    L.append("/-- structural facts of RotatingSink.h the model assumes (name, holds in the current header) -/")
-    L.append("def rotFacts : List (String × Bool) := [")
-    L.append(",\n".join("  (%s, %s)" % (lean_str(k), lean_bool(v)) for k, v in facts.items()))
-    L.append("]")
+    for nm, doc, fx in (("rotSizeFacts", "structural facts of RotatingSink.h the size-rotation / naming / start-up part of the model assumes", out["sizeFacts"]),
+                        ("rotTimeFacts", "structural facts of RotatingSink.h the time-rotation part of the model assumes", out["timeFacts"])):
+        L.append("/-- %s (name, holds in the current header) -/" % doc)
+        L.append("def %s : List (String × Bool) := [" % nm)
+        L.append(",\n".join("  (%s, %s)" % (lean_str(k), lean_bool(v)) for k, v in fx.items()))
+        L.append("]")
+    L.append("def rotTimeProblems : List String := [%s]" % ", ".join(lean_str(x) for x in time_problems))
     return out, "\n".join(L)
 
 
 FALLBACK = ({"advancesFromSchedule": False, "minLimit": 512, "facts": {}},
             "def rotParams : Rot.Params := { advancesFromSchedule := false }\ndef rotMinLimit : Nat := 512\n"
             "def rotSchemes : List String := []\ndef rotFreqs : List String := []\n"
-            "def rotDefaults : Rot.Cfg := { maxBackup := 0 }\ndef rotFacts : List (String × Bool) := [(\"extraction\", false)]")
+            "def rotDefaults : Rot.Cfg := { maxBackup := 0 }\ndef rotSizeFacts : List (String × Bool) := [(\"extraction\", false)]\n"
+            "def rotTimeFacts : List (String × Bool) := [(\"extraction\", false)]\ndef rotTimeProblems : List String := []")
